@@ -44,8 +44,8 @@ PROPS = {
         'methods (standard and extension tokens) x header values from three streams (grammar-derived, near-miss, arbitrary bytes incl. >= 0x80) x repeated header lines x entity lengths {0,1,...,2^32,2^63,2^64-1} x ETag/mtime presence; panics are caught around serve() and around every poll.' + GEN_NOTE),
     'C14': serve_prop(['status', 'hdr:accept-ranges', 'hdr:etag', 'hdr:date', 'hdr:last-modified', 'hdr:content-type', 'hdr:x-*', 'hdr:content-language'], [],
         'two-request histories: GET (plain / single range / several ranges), then one request per non-empty subset of the validators the first response actually served (If-None-Match, If-Match, If-Range + Range, If-Modified-Since, If-Unmodified-Since) x ETag {absent, strong, weak, with comma} x mtime {absent, epoch, whole second, +1 ms, +1 ns, 1 ns before the next second, 3 s ago, one day ahead} x 4 entity header sets.' + GEN_NOTE),
-    'C15': serve_prop(['status', 'hdr:*', 'calls', 'hint0', 'body.len', 'body.end'], [],
-        'every GET/HEAD request of a broad mix (mixed requests, multipart sets, If-Range product, conditional product) executed with GET and with HEAD; the twins are diffed by the harness (status, headers apart from Date, entity reads, body bytes) and each is compared with the model.' + GEN_NOTE),
+    'C15': serve_prop(['status', 'hdr:*', 'calls', 'hint0', 'body.len', 'body.end', 'writer'], [],
+        'every GET/HEAD request of a broad mix (mixed requests, multipart sets, If-Range product, conditional product) executed with GET and with HEAD; the twins are diffed by the harness (status, headers apart from Date, entity reads, body bytes) and each is compared with the model; streaming_body GET/HEAD twins over Accept-Encoding x gzip level x builder call sequences x {Request, Parts} (same headers, no writer and an empty body for HEAD).' + GEN_NOTE),
     'C20': serve_prop(['body.after', 'body.panic', 'once.bytes'], [],
         'every body polled 1..4 more times after each kind of terminal event (clean end, entity error, too short, too long) at every fault position of the C07 enumeration, plus mixed requests with faulty fused streams and multipart sets, and Body::empty() / Body::from bodies polled up to 5 times.' + GEN_NOTE),
 }
